@@ -180,7 +180,7 @@ impl RollingSummary {
         let max_buckets = buckets.get() as usize;
 
         RollingSummary {
-            buckets: Vec::with_capacity(max_buckets),
+            buckets: Vec::new(),
             max_buckets,
             bucket_duration,
             max_bucket_duration,
